@@ -215,3 +215,100 @@ Ltac b2p :=
   | X : Bool.eqb true _ = true |- _ => apply eqb_prop in X; symmetry in X
   | X : Bool.eqb false _ = true |- _ => apply eqb_prop in X; symmetry in X
   end.
+
+Lemma s64_inc_pos v : RQ_LONG_MIN <= v <= RQ_LONG_MAX -> s64 (v + 1) <> RQ_LONG_MIN -> s64 (v + 1) = v + 1 /\ v + 1 <= RQ_LONG_MAX.
+Proof.
+  unfold RQ_LONG_MIN, RQ_LONG_MAX. intros R H.
+  destruct (Z.eq_dec v 9223372036854775807) as [->|Ne]; [exfalso; apply H; reflexivity|].
+  split; [apply s64_id|]; lia.
+Qed.
+Lemma s64_dec v : RQ_LONG_MIN < v <= RQ_LONG_MAX -> s64 (v - 1) = v - 1.
+Proof. unfold RQ_LONG_MIN, RQ_LONG_MAX. intros R. apply s64_id. lia. Qed.
+
+Ltac wfacts IC Hpc t :=
+  let W := fresh "W" in pose proof (C_wf _ IC t) as W; rewrite Hpc in W; cbn in W;
+  pose proof (C_ksem _ IC); pose proof (C_sval _ IC); pose proof (C_pendmax _ IC); pose proof (C_poolmin _ IC).
+Ltac fin IC Hpc :=
+  match goal with
+  | |- InvC (set_pc ?s1 ?t ?p) =>
+      eapply (invC_generic _ s1 t p IC); try reflexivity; rewrite ?Hpc; unfold w_pool; cbn [pend pool sval ksem pool0 pcs seen set_pend set_pool set_sval set_ksem set_head set_nxt set_owner do_push do_head_store do_claim do_detach do_run is_slow is_sigpost w_pend wk kw ctxw kret pc_wf]; try tauto; try lia;
+      try (unfold RQ_INT_MAX, RQ_LONG_MIN, RQ_LONG_MAX, FLOOR_B, floor_ok in *; b2p; lia)
+  end.
+
+Lemma ev_at_kind e k o ob off : ev_at e k o ob off = true -> ek e = k.
+Proof. unfold ev_at. intros H. b2p. assumption. Qed.
+Ltac kinds := repeat match goal with X : ev_at ?e ?k _ _ _ = true |- _ => apply ev_at_kind in X end;
+  unfold DV_LOAD, DV_ADD, DV_SUB in *.
+
+Ltac open_case H := repeat split_if H; injection H as <-; b2p.
+Ltac kcases := try match goal with k : kont |- _ => destruct k as [[|]| | |] end.
+Ltac sval_rw := match goal with X : s64 (ea _) = sval _ |- _ => rewrite X in * end.
+
+Theorem invC_step oc s t e s' : Inv1 s -> InvC s -> gstep oc s t e = Some s' -> InvC s'.
+Proof.
+  intros I1 IC H. destruct (pcs s t) eqn:Hpc; gstep_open H Hpc; try unfold call_entry in H; wfacts IC Hpc t.
+  (* PSigInc *)
+  all: try solve [ match type of Hpc with _ = PSigInc _ _ _ => idtac end;
+    open_case H; sval_rw;
+    match goal with R : RQ_LONG_MIN <= sval ?s0 <= RQ_LONG_MAX |- _ =>
+      destruct (s64_inc_pos (sval s0)) as [E1 E2]; [assumption| unfold RQ_LONG_MIN in *; lia |] end;
+    rewrite E1 in *; kcases; fin IC Hpc ].
+  (* PPoolLoop *)
+  all: try solve [ match type of Hpc with _ = PPoolLoop _ _ _ _ => idtac end;
+    open_case H; destruct W as [-> Wf]; kcases;
+    match type of Wf with floor_ok ?f = true =>
+      assert (Fl : - FLOOR_B <= f <= FLOOR_B) by (clear - Wf; unfold floor_ok in Wf; b2p; lia) end;
+    unfold can_request, FLOOR_B in *;
+    match goal with |- context [?a <? ?b] => destruct (a <? b) eqn:? | _ : context [?a <? ?b] |- _ => destruct (a <? b) eqn:? end;
+    b2p; fin IC Hpc ].
+  (* PCreate *)
+  all: try solve [ match type of Hpc with _ = PCreate _ _ => idtac end;
+    subst; open_case H; try lia;
+    apply invC_create; auto;
+    match goal with X : pc_is_none ?p = true |- _ => destruct p; try discriminate X; reflexivity end ].
+  (* contended wait *)
+  all: try solve [ match type of Hpc with _ = PCwEval _ _ => idtac end;
+    destruct q, pd; open_case H; try discriminate; unfold cw_after, cw_resume, ST_READY; cbn; fin IC Hpc; kinds; lia ].
+  all: try solve [ match type of Hpc with _ = PCwEvalT _ _ => idtac end;
+    destruct pd; open_case H; unfold cw_after, cw_resume;
+    repeat match goal with |- context [if ?c then _ else _] => destruct c end; fin IC Hpc ].
+  all: try solve [ match type of Hpc with _ = PCwOut _ => idtac end;
+    open_case H; unfold cw_resume;
+    repeat match goal with |- context [if ?c then _ else _] => destruct c end; fin IC Hpc ].
+  (* PSemDec *)
+  all: try solve [ match type of Hpc with _ = PSemDec => idtac end;
+    open_case H; sval_rw; rewrite s64_dec in * by lia; fin IC Hpc ].
+  (* everything else *)
+  all: try solve [ destruct oc; open_case H; kcases; try match goal with c : ctx |- _ => destruct c end; fin IC Hpc ].
+Qed.
+
+Theorem invC_reach oc p0 s : valid_init p0 -> reach oc p0 s -> InvC s /\ pool0 s = p0.
+Proof.
+  intros V R. assert (X : Inv1 s /\ InvC s /\ pool0 s = p0); [|tauto].
+  induction R as [s E|s [t e] s' R IH St].
+  - subst. split; [apply Inv1_init|]. split; [apply InvC_init; exact V|reflexivity].
+  - destruct IH as (I1 & IC & E). split; [eapply inv1_step; eauto|]. split; [eapply invC_step; eauto|].
+    unfold step, gstep in St. cbn [fst snd] in St. destruct (tstep oc (pcs s t) e); [|discriminate].
+    destruct (effect oc s t e) as [s1|] eqn:Ef; [|discriminate]. injection St as <-. cbn. rewrite <- E.
+    unfold effect, guard in Ef. destruct (pcs s t); repeat split_if Ef; injection Ef as <-; reflexivity.
+Qed.
+
+(* consequences: the C int fields never wrap, the pool is bounded, the "Pending thread request underflow" crash of
+   _dispatch_worker_thread never fires *)
+Lemma cnt_nonneg w s : (forall p, 0 <= w p) -> 0 <= cnt w s.
+Proof. intros H. apply tsum_nonneg. exact H. Qed.
+
+Lemma int_fields_in_range s : InvC s -> 0 <= pend s <= RQ_INT_MAX /\ - FLOOR_B <= pool s <= pool0 s.
+Proof.
+  intros IC. destruct weights_nonneg as (_ & _ & Wp & _ & Wl).
+  pose proof (cnt_nonneg w_pend s Wp). pose proof (cnt_nonneg w_pool s Wl).
+  pose proof (C_pend s IC). pose proof (C_pendmax s IC). pose proof (C_pool s IC). pose proof (C_poolmin s IC). lia.
+Qed.
+
+Lemma worker_start_has_pending s t : InvC s -> pcs s t = PWStart -> 1 <= pend s.
+Proof.
+  intros IC Hpc. destruct weights_nonneg as (_ & _ & Wp & _).
+  assert (In t (seen s)) by (apply (C_sup s IC); congruence).
+  pose proof (tsum_ge w_pend (pcs s) (seen s) t Wp H) as G. rewrite Hpc in G. cbn in G.
+  rewrite (C_pend s IC). exact G.
+Qed.
